@@ -3,6 +3,7 @@
 package c03
 
 import (
+	"reflect"
 	"os"
 	"errors"
 	"fmt"
@@ -32,6 +33,7 @@ type built struct {
 	desc    string
 	noRefl  bool // payload not equal to itself under the documented comparison (excluded from reflexivity only)
 	after   func() string // optional extra judgement after AddTo ("" = fine)
+	related []zapcore.Field // fields that are close to f (same key, wrapped/wrapping payload): symmetry is judged against them
 	boundry bool
 }
 
@@ -280,9 +282,16 @@ func rows() []row {
 				e = errSlice{g.Str()}
 			} else if g.R.P(1, 3) {
 				e = errHolder{hidden(g)}
+			} else if g.R.P(1, 2) {
+				e = richError(g, 0)
 			}
 			a := zap.Any(key, e)
-			return built{f: zap.NamedError(key, e), again: func() zapcore.Field { return zap.NamedError(key, e) }, want: call("str", key, e.Error()), anyF: &a, desc: fmt.Sprintf("NamedError(%q,%T)", key, e)}
+			// related fields under the same key: the error it wraps / an error wrapping it (Equals must stay symmetric)
+			rel := []zapcore.Field{zap.NamedError(key, fmt.Errorf("outer: %w", e))}
+			if u := errors.Unwrap(e); u != nil {
+				rel = append(rel, zap.NamedError(key, u))
+			}
+			return built{f: zap.NamedError(key, e), again: func() zapcore.Field { return zap.NamedError(key, e) }, want: wantError(key, e), anyF: &a, related: rel, desc: fmt.Sprintf("NamedError(%q,%T)", key, e)}
 		}},
 		{"Error", func(g *gen.G, key string) built {
 			if g.R.P(1, 4) {
@@ -300,14 +309,18 @@ func rows() []row {
 					continue
 				}
 				es[i] = errors.New(g.Str())
-				sub = append(sub, rec.Call{Kind: "object", Sub: call("str", "error", es[i].Error())})
+				if g.R.P(1, 2) {
+					es[i] = richError(g, 0)
+				}
+				// each element is encoded like zap.Error(element) inside an object
+				sub = append(sub, rec.Call{Kind: "object", Sub: wantError("error", es[i])})
 			}
 			orig := clone(es)
 			a := zap.Any(key, es)
 			return built{f: zap.Errors(key, es), again: func() zapcore.Field { return zap.Errors(key, clone(orig)) }, want: []rec.Call{{Kind: "array", Key: key, Sub: sub}}, anyF: &a, desc: fmt.Sprintf("Errors(%q,%d)", key, n),
 				after: func() string {
 					for i := range orig {
-						if es[i] != orig[i] {
+						if !sameErr(es[i], orig[i]) {
 							return fmt.Sprintf("the constructor (or encoding the field) modified the caller's slice: element %d changed", i)
 						}
 					}
@@ -508,6 +521,98 @@ type errStr struct{ s string }
 func (e errStr) Error() string  { return "error:" + e.s }
 func (e errStr) String() string { return "string:" + e.s }
 
+// rich error kinds (the representation of an error is documented in zapcore/error.go:
+// message under key, "%+v" under keyVerbose when it differs, causes under keyCauses)
+type verboseE struct{ msg, verbose string }
+
+func (e verboseE) Error() string { return e.msg }
+func (e verboseE) Format(s fmt.State, verb rune) {
+	if verb == 'v' && s.Flag('+') {
+		fmt.Fprint(s, e.verbose)
+		return
+	}
+	fmt.Fprint(s, e.msg)
+}
+
+type groupE struct {
+	msg    string
+	causes []error
+}
+
+func (e groupE) Error() string   { return e.msg }
+func (e groupE) Errors() []error { return e.causes }
+
+type ptrE struct{ msg string }
+
+func (e *ptrE) Error() string { return e.msg } // a nil *ptrE panics here: rendered as "<nil>"
+
+func richError(g *gen.G, depth int) error {
+	switch g.R.Intn(6) {
+	case 0:
+		m := g.Str()
+		return verboseE{m, m + "\n  verbose"}
+	case 1:
+		m := g.Str()
+		return verboseE{m, m} // verbose equals the message: no keyVerbose member
+	case 2:
+		if depth < 2 {
+			n := g.R.Intn(3)
+			cs := make([]error, 0, n+1)
+			for i := 0; i < n; i++ {
+				cs = append(cs, richError(g, depth+1))
+			}
+			if g.R.Bool() {
+				cs = append(cs, nil)
+			}
+			return groupE{g.Str(), cs}
+		}
+		return errors.New(g.Str())
+	case 3:
+		return (*ptrE)(nil)
+	case 4:
+		return fmt.Errorf("wrap: %w", errors.New(g.Str()))
+	}
+	return errors.New(g.Str())
+}
+
+// sameErr compares two error values without panicking on uncomparable dynamic types.
+func sameErr(a, b error) (eq bool) {
+	defer func() {
+		if recover() != nil {
+			eq = reflect.DeepEqual(a, b)
+		}
+	}()
+	return a == b
+}
+
+// wantError is the reference representation of err under key.
+func wantError(key string, err error) []rec.Call {
+	if p, ok := err.(*ptrE); ok && p == nil {
+		return call("str", key, "<nil>")
+	}
+	basic := err.Error()
+	out := call("str", key, basic)
+	switch e := err.(type) {
+	case interface{ Errors() []error }:
+		var sub []rec.Call
+		for _, c := range e.Errors() {
+			if c == nil {
+				continue
+			}
+			sub = append(sub, rec.Call{Kind: "object", Sub: wantError("error", c)})
+		}
+		if sub == nil {
+			sub = []rec.Call{}
+		}
+		out = append(out, rec.Call{Kind: "array", Key: key + "Causes", Sub: sub})
+	case fmt.Formatter:
+		if v := fmt.Sprintf("%+v", e); v != basic {
+			out = append(out, rec.Call{Kind: "str", Key: key + "Verbose", Val: v})
+		}
+	}
+	return out
+}
+
 type stringerSlice []string
 
 func (s stringerSlice) String() string { return fmt.Sprint([]string(s)) }
@@ -656,6 +761,15 @@ func Run(r *ev.Run) {
 				if !b.noRefl && (!eqSelf || !eqFG) {
 					r.Violate(ev.Violation{Case: id, Class: "equals-not-reflexive:" + rw.name, Msg: fmt.Sprintf("%s: fields built from equal inputs are not Equal (self=%v rebuilt=%v)", b.desc, eqSelf, eqFG), Witness: b.desc})
 				}
+			}
+			for _, h := range b.related {
+				var x, y bool
+				if p := ev.Guard(func() { x = b.f.Equals(h); y = h.Equals(b.f) }); p != "" {
+					r.Violate(ev.Violation{Case: id, Class: "equals-panic:" + rw.name, Msg: fmt.Sprintf("%s: Equals against a related field panicked: %s", b.desc, p)})
+				} else if x != y {
+					r.Violate(ev.Violation{Case: id, Class: "equals-asymmetric", Msg: fmt.Sprintf("%s: Equals is asymmetric against a field holding the wrapping/wrapped error under the same key (f.Equals(h)=%v, h.Equals(f)=%v)", b.desc, x, y)})
+				}
+				r.Count("equals_related_pairs", 1)
 			}
 			// symmetry / no panic against unrelated fields
 			if len(pool) > 0 {
